@@ -420,10 +420,10 @@ func C04(run *mon.Run) {
 		}
 		run.Shape("non-subgroup")
 	}
-	// every list size 1..N (quick 72, thorough 300): public keys (every third one in Jacobian form, one
+	// every list size 1..N (quick 136, thorough 300): public keys (every third one in Jacobian form, one
 	// identity key), private keys and signatures of the same scalars, against reference prefix sums
 	{
-		N := run.Pick(72, 300)
+		N := run.Pick(136, 300)
 		rr := run.Rand("list-sizes")
 		hh := crypto.NewExpandMsgXOFKMAC128("c04-sizes")
 		msg := []byte("list sizes")
